@@ -31,10 +31,10 @@ type Hist struct {
 }
 
 type Case struct {
-	Create, Modify, Delete []Elem
+	Create, Modify, Delete          []Elem
 	NilCreate, NilModify, NilDelete bool // the block pointer is nil instead of an empty OSM
-	Hists                  []Hist
-	Ignore                 bool
+	Hists                           []Hist
+	Ignore                          bool
 }
 
 type key struct {
